@@ -52,9 +52,16 @@ func c11IsAnc(bg *BuiltGraph, a, b int) Res {
 	})
 }
 
-func c11Walk(bg *BuiltGraph, b int) Res {
+func c11Walk(bg *BuiltGraph, b int) Res { return c11WalkN(bg, []int{b}) }
+
+// c11WalkN walks from several start points (duplicates allowed: two refs on one commit).
+func c11WalkN(bg *BuiltGraph, starts []int) Res {
 	return Guard(func() Res {
-		q, err := ref.NewCommitsQueue(bg.DB, [][]byte{bg.Sums[b]})
+		sums := [][]byte{}
+		for _, s := range starts {
+			sums = append(sums, bg.Sums[s])
+		}
+		q, err := ref.NewCommitsQueue(bg.DB, sums)
 		if err != nil {
 			return Err("error")
 		}
@@ -119,6 +126,16 @@ func runC11(ctx *Ctx) {
 	}
 	b := 1 + r.Intn(n)
 	ctx.Emit("walk", c11Input{Graph: g, B: b}, c11Walk(bg, b), nt)
+	{
+		// several start points, some repeated (heads/main and remotes/origin/main on one commit)
+		k := 2 + r.Intn(3)
+		st := make([]int, k)
+		for i := range st {
+			st[i] = 1 + r.Intn(n)
+		}
+		st = append(st, st[r.Intn(k)])
+		ctx.Emit("walkn", c11Input{Graph: g, Inputs: st}, c11WalkN(bg, st), nt)
+	}
 	for k := 0; k < 4; k++ {
 		m := 2 + r.Intn(3)
 		if k == 0 {
@@ -147,6 +164,8 @@ func corpusC11(ctx *Ctx, op string, raw json.RawMessage) {
 		ctx.Emit(op, in, c11IsAnc(bg, in.A, in.B), nt)
 	case "walk":
 		ctx.Emit(op, in, c11Walk(bg, in.B), nt)
+	case "walkn":
+		ctx.Emit(op, in, c11WalkN(bg, in.Inputs), nt)
 	case "seek":
 		ctx.Emit(op, in, c11Seek(bg, in.Inputs), nt, seekTags(in.Inputs)...)
 	}
